@@ -171,7 +171,19 @@ Fixpoint noisy_crit (sc : schema) (fuel : nat) (mi : nat) (x : bytes) {struct fu
                     (fun z => exists u plb junk, unk m false false u /\ small plb /\
                                 match f with O => False | S f1 => noisy_crit sc f1 m' plb end /\
                                 z = u ++ tlv (ftyp g) plb ++ junk)
-                    (map (fun ep => tlv (ftyp g) (snd ep)) lp) y))
+                    (map (fun ep => tlv (ftyp g) (snd ep)) lp) y) \/
+               (exists m' key vt (lp : list ((value * value) * bytes)), fk g = KMap key vt (KStruct m') /\
+                  (forall kx vx plv, In ((kx, vx), plv) lp ->
+                      is_none kx = false /\ is_none vx = false /\ wf_val f sc key kx = true /\
+                      wf_val f sc (KStruct m') vx = true /\ small (payload (pred f) sc key kx) /\ small plv /\
+                      payq sc (nq sc false (S f)) (pred f) (KStruct m') vx plv) /\
+                  keys_nodup (map fst lp) = true /\
+                  mixedk m false
+                    (fun z => exists kx u plvb junk, unk m false false u /\ is_none kx = false /\ wf_val f sc key kx = true /\
+                                small (payload (pred f) sc key kx) /\ small plvb /\
+                                match f with O => False | S f1 => noisy_crit sc f1 m' plvb end /\
+                                z = u ++ tlv (ftyp g) (payload (pred f) sc key kx) ++ tlv vt plvb ++ junk)
+                    (map (map_el sc f g key vt) lp) y))
             es x))
   end.
 
@@ -195,11 +207,15 @@ Proof.
     rewrite br_len_mk, br_pos_mk. cbn [length]. lia.
   - apply (fields_loop_bad sc D D (sub_exact sc Hsc D) m (length sc) (schema_model_wf sc mi m Hsc Hm) false f ltac:(lia) vs Hw'
              (nq sc false (S f)) HQ j g Hg es x); auto.
-    + eapply mixedk_mono; [|exact Hmix]. intros y [[m' [u [plb [junk [Ek [Hu [Hs [Hc ->]]]]]]]] | [m' [lp [Ek [Hl Hmk]]]]].
+    + eapply mixedk_mono; [|exact Hmix].
+      intros y [[m' [u [plb [junk [Ek [Hu [Hs [Hc ->]]]]]]]] | [[m' [lp [Ek [Hl Hmk]]]] | [m' [key [vt [lp [Ek [Hl [Hnd Hmk]]]]]]]]].
       * left. exists m', u, plb, junk. repeat split; auto. apply (IH f); [lia|lia|exact Hc].
-      * right. exists m', lp. split; [exact Ek|]. split; [exact Hl|].
+      * right. left. exists m', lp. split; [exact Ek|]. split; [exact Hl|].
         eapply mixedk_mono; [|exact Hmk]. intros z [u [plb [junk [Hu [Hs [Hc ->]]]]]].
         exists u, plb, junk. repeat split; auto. destruct f as [|f1]; [destruct Hc|]. apply (IH f1); [lia|lia|exact Hc].
+      * right. right. exists m', key, vt, lp. split; [exact Ek|]. split; [exact Hl|]. split; [exact Hnd|].
+        eapply mixedk_mono; [|exact Hmk]. intros z [kx [u [plvb [junk [Hu [Hnk [Hwk [Hsk [Hsv [Hc ->]]]]]]]]]].
+        exists kx, u, plvb, junk. repeat split; auto. destruct f as [|f1]; [destruct Hc|]. apply (IH f1); [lia|lia|exact Hc].
     + rewrite br_len_mk, br_pos_mk. cbn [length]. lia.
 Qed.
 
